@@ -207,19 +207,21 @@ func (p *Processor) ChargingDataCreate(
 		return nil, "", problemDetails
 	}
 
-	ue.Cdr[chargingSessionId] = cdr
-	ue.Records = append(ue.Records, ue.Cdr[chargingSessionId])
-	unlock()
-
 	if chargingData.OneTimeEvent {
+		// the record of an event is complete: close it before other requests of the subscriber can see it
 		err = p.CloseCDR(cdr, false)
 		if err != nil {
+			unlock()
 			problemDetails := &models.ProblemDetails{
 				Status: http.StatusBadRequest,
 			}
 			return nil, "", problemDetails
 		}
 	}
+
+	ue.Cdr[chargingSessionId] = cdr
+	ue.Records = append(ue.Records, ue.Cdr[chargingSessionId])
+	unlock()
 
 	// CDR Transfer
 	err = cgf.SendCDR(chargingData.SubscriberIdentifier)
